@@ -123,6 +123,8 @@ HEADER = {
     "consume_oaa": "@guppy.declare\ndef consume_oaa(x: array[array[qubit, 1], 2] @owned) -> None: ...\n",
     "consume_sa": "@guppy.declare\ndef consume_sa(x: SA @owned) -> None: ...\n",
     "consume_ta": "@guppy.declare\ndef consume_ta(x: tuple[array[qubit, 2], int] @owned) -> None: ...\n",
+    "ovb": ("@guppy.declare\ndef ovb1(q: qubit) -> None: ...\n@guppy.declare\ndef ovb2(q: qubit, r: qubit) -> None: ...\n"
+            "@guppy.overload(ovb1, ovb2)\ndef ovb(): ...\n"),
 }
 HEADER_ORDER = list(HEADER)
 
@@ -175,7 +177,9 @@ def kind_ops(k):
     """(non-final ops, return ops) of one value kind."""
     ops, rets = [], []
     if k in ("o", "b", "q"):
-        ops += [(k, "consume", None), (k, "borrow", None)]
+        # borrowing through every call MECHANISM: a declared function, a custom function without a declared
+        # signature (barrier), an overloaded function
+        ops += [(k, "consume", None), (k, "borrow", None), (k, "borrow-barrier", None), (k, "borrow-overloaded", None)]
         rets += [(k, "ret", None)]
     elif k in ("oa", "ba", "la", "t"):
         for i in (0, 1):
@@ -230,6 +234,10 @@ def op_lines(op):
         return [f"consume({place(k, a)})"]
     if n == "borrow":
         return [f"h({place(k, a)})"]
+    if n == "borrow-barrier":
+        return [f"barrier({place(k, a)})"]
+    if n == "borrow-overloaded":
+        return [f"ovb({place(k, a)})"]
     if n == "ret":
         return [f"return {place(k, a)}"]
     if n == "wconsume":
@@ -377,6 +385,8 @@ def _new_leaf(st, k):
 def step(st0, op):
     """Returns the successor state; raises Guard if the op is not applicable."""
     k, n, a = op
+    if n in ("borrow-barrier", "borrow-overloaded"):
+        n = "borrow"
     st = st0.copy()
     _declare(st, k)
     if n == "leak":
@@ -674,6 +684,10 @@ def judge(ops, sig=""):
         if got[0] == "invalid":
             key = f"invalid-hugr:{shape(ops)}"
     if key:
+        # the call mechanism is part of the defect class (one root cause per mechanism)
+        mech = sorted({o[1].split("-", 1)[1] for o in ops if o[1].startswith("borrow-")})
+        if mech:
+            key = key.split(":")[0] + ":via-" + "+".join(mech) + ":" + ":".join(key.split(":")[1:2])
         res["key"] = key
         res["what"] = (f"model={verdict}{'/' + viols[0][0] if viols else ''} but tracer gave {got[0]} "
                        f"({got[1]} {got[2]}) for body: " + " ; ".join(
